@@ -228,8 +228,10 @@ def host_cursor(R, P):
                 continue  # no user-info on this path
             s2 = st.copy()
             for (D, sz, mode) in addr_size(num, s2, kind, n):
-                if D is None:
-                    continue
+                if D is None or mode == "w":
+                    continue  # the rule is about what is read
+                if any(a_ in s2.extent for a_ in (D - d).atoms()):
+                    continue  # an address in another object than the text being parsed (a result field, a local)
                 nst += 1
                 if not entails(s2, d + 1 - D):
                     bad = "address %r is not after the '@' at %r" % (D, d)
@@ -700,6 +702,17 @@ def decoder_total(R, P):
             "the decoder rejects depending on the decoded byte (%s): a correctly escaped byte with that value (%%00) is refused, so encode-then-decode fails for it" % bad)
 
 
+def _stored_field(f, el):
+    """the lvalue an assignment stores to, seen through `*out` where out is bound to the address of a field (the
+    out-parameter of an expanded helper)"""
+    l = f.d(el["a"][0])
+    if l is not None and l["k"] == "un" and l["op"] == "deref":
+        m = RU.strip_addr(f, l["a"][0])
+        if m is not None and m["k"] == "member":
+            return m
+    return l
+
+
 def port_range(R, P):
     """PORT: the authority parser accepts exactly the port numbers that fit the 32-bit field: once the digits parsed, ERROR is
     set only if the value exceeds UINT32_MAX, and the narrowing store sees a value <= UINT32_MAX (NUM, all values)."""
@@ -728,7 +741,7 @@ def port_range(R, P):
     for b in f.blocks.values():
         for el in b.elems:
             if el["k"] == "bin" and el["op"] == "=":
-                l = f.d(el["a"][0])
+                l = _stored_field(f, el)
                 if l["k"] == "member" and l["f"] == "state" and f.is_const(el["a"][1]) == errv:
                     stores.append(el)
                 if l["k"] == "member" and l["f"] == "port" and f.is_const(el["a"][1]) is None:
@@ -742,7 +755,7 @@ def port_range(R, P):
         return
     ok, det, n_err, n_port = True, "", 0, 0
     for s in stores:
-        is_port = f.d(s["a"][0])["f"] == "port"
+        is_port = _stored_field(f, s)["f"] == "port"
         for st in sts.get(s["id"], []):
             pv = st.notes.get("port_ok")
             if pv is None:
